@@ -132,6 +132,19 @@ CLAIMED["C04"] = dict(
          "(see known_findings.json).",
     design="§8 C04", technique="Lean 4 proof (window-refines-set + Nodup invariant over operation histories) + differential correspondence")
 
+CLAIMED["C06"] = dict(
+    text="Lean theorems: for EVERY payload and every size configuration with a usable fragment size (every MTU >= 73) FragmentSender.build "
+         "yields non-empty slices that each fit one datagram with their 6-byte prefix and whose concatenation is the payload, at most "
+         "MAX_FRAGMENTS+1 of them up to the limit (C06_build_join); a payload <= MAX_PAYLOAD_SIZE queues exactly one APP message, one above "
+         "the limit is refused with ValueError and nothing is queued; on the receiving side, for every state whose reassembly contexts "
+         "are consistent with what the peer sent and every authentic fragment - any order, repetition, interleaving of ids, any expiry - "
+         "the contexts stay consistent, nothing raises, and whatever is delivered is the concatenation of the fragments the peer produced "
+         "(C06_fragment_step = no fabrication), and a context holding all indices is complete and joins to the payload. Model tied to "
+         "connection.py by two-party differentials with several fragmented messages in flight under reorder/duplication/loss at MTU "
+         "512..1500, comparing every delivery by length and CRC-32.",
+    note=TRUST + "relative to one message per fragment id in the considered history (16-bit id space) and authentic fragments (C01).",
+    design="§8 C06", technique="Lean 4 proof (split/join induction, slot-consistency invariant) + differential correspondence")
+
 REASON_PENDING = "model and theorems for this property are not built yet in this revision (planned, see DESIGN.md §13); not claimed until its check exists"
 
 def main():
